@@ -352,6 +352,9 @@ func runC11(c *fw.Ctx, cs fw.Case) {
 		if !ok {
 			continue
 		}
+		if !quietTame(h, cfg) {
+			cfg = pd[r.Intn(2)]
+		}
 		n0, n1 := branching(b, cfg.limit)
 		bud := budget
 		if cfg.quiet {
